@@ -20,7 +20,9 @@ from ..tables import rule, VAR_CARRIERS, TIME_CARRIERS
 from . import analysis
 
 rule("C15.a", "in the fix-window branch the selector and the pinned vectors live in the same index space (variable labels, "
-              "not a per-row mask) for any number of mapping rows per variable", floor=2)
+              "not a per-row mask) for any number of mapping rows per variable", floor=1)
+rule("C15.f", "a variable is pinned when ANY of its mapping rows lies in the window: window membership is tested on every row "
+              "of the mapping, not on a frame reduced to one row per variable", floor=1)
 rule("C13.b", "in the minor-grid extension the arrays of the restricted grid are addressed by position in that grid, not by a "
               "variable label", floor=1)
 rule("C04.a", "cash-flow / report extraction indexes per-variable vectors by variable label and per-step arrays by time-step "
@@ -362,7 +364,7 @@ def _rule_for(fn) -> str:
     return "C07.k"
 
 
-@analysis("spaces", ["C15.a", "C13.b", "C04.a", "C07.k"])
+@analysis("spaces", ["C15.a", "C15.f", "C13.b", "C04.a", "C07.k"])
 def run(ctx):
     p = ctx.p
     counts = {}
@@ -392,6 +394,45 @@ def run(ctx):
                        "%s is an %s but is subscripted with a %s: the two index spaces only coincide by accident (one mapping row "
                        "per variable, one variable per step, window starting at step 0)" % (au.short(n.value, 50), _describe(base), _describe(k)),
                        node=n, ok_detail="%s [ %s ]" % (_describe(base), _describe(k)))
+    # ---------------------------------------------------------------- anchors that must not pass vacuously
+    helper = [f for f in p.all_functions() if f.qualname.endswith("__extend_mapping_to_minor_grid__")]
+    ctx.require(bool(helper), "the minor-grid extension helper vanished")
+    ctx.ob("C13.b", helper[0], "restricted-grid arrays addressed by position", True,
+           ok_detail="%d typed subscript(s), none with a variable label" % counts.get("C13.b", 0), trivial=True)
+    pfn = p.fn_opt("Portfolio.setup_optim_problem")
+    ctx.require(pfn is not None, "Portfolio.setup_optim_problem vanished")
+    fix_if = [s2 for s2 in au.walk_stmts(pfn.body) if isinstance(s2, ast.If) and "fix_time_window" in au.names_in(s2.test)]
+    ctx.require(bool(fix_if), "the fix_time_window branch of Portfolio.setup_optim_problem vanished")
+    pins = [s2 for s2 in au.walk_stmts(fix_if[0].body) if isinstance(s2, ast.Assign) and isinstance(s2.targets[0], ast.Subscript)
+            and au.terminal(s2.targets[0].value) in ("l", "u")]
+    if not pins:
+        ctx.ob("C15.a", pfn, "bounds pinned in the fix-window branch", False,
+               "the fix-window branch no longer writes l[...] / u[...]: nothing is pinned", node=fix_if[0])
+    elif counts.get("C15.a", 0) == 0:
+        ctx.ob("C15.a", pfn, "selector of %s" % au.short(pins[0], 50), None, "the selector of the pinned bounds could not be typed", node=pins[0])
+    # C15.f: membership is tested on every row
+    ty = Typer(ctx, pfn)
+    found = False
+    for s2 in au.walk_stmts(fix_if[0].body):
+        for n in au.walk_own(s2):
+            if isinstance(n, ast.Call) and au.method_name(n) == "isin" and isinstance(n.func, ast.Attribute):
+                recv = n.func.value
+                col = recv
+                if isinstance(recv, ast.Name):
+                    ds = [d for d in ty.ff.defs(recv.id, s2) if d.kind == "assign" and d.value is not None]
+                    col = ds[0].value if len(ds) == 1 else recv
+                is_steps = any(au.const_str(x.slice) == "time_step" for x in au.walk_local(col) if isinstance(x, ast.Subscript))
+                if not is_steps:
+                    continue
+                found = True
+                reduced = any(isinstance(x, ast.Call) and au.method_name(x) in ("duplicated", "drop_duplicates", "first", "groupby") for x in au.walk_local(col))
+                ctx.ob("C15.f", pfn, au.short(n, 80), not reduced,
+                       "window membership is tested on a frame reduced to one row per variable (%s): a variable with several rows at "
+                       "different steps (coarse asset frequency, periodic asset) is pinned only if its *first* row lies in the window; "
+                       "the other fixed steps stay free" % au.short(col, 60), node=n)
+    if not found:
+        ctx.ob("C15.f", pfn, "window membership test", None, "no `time_step ... .isin(window)` test found in the fix-window branch")
+
     # ---------------------------------------------------------------- C04.a structural part of Asset.dcf
     dcf = p.cls("Asset").methods.get("dcf")
     ctx.require(dcf is not None, "Asset.dcf vanished")
